@@ -1184,4 +1184,71 @@ theorem getTok_mainSet (S : Side) (hS : SideOk S) (fuel : Nat) (k : Go.Str) (sd 
     show Go.regGet (Go.regSet sd.reg sd.mainSession _) _ = _
     exact regGet_regSet_ne _ _ _ _ (hc i q hq)
 
+/-! ## the authenticated flag and the 24-hour limit -/
+abbrev kAuth : Go.Str := ['a','u','t','h','e','n','t','i','c','a','t','e','d']
+abbrev kCreated : Go.Str := ['c','r','e','a','t','e','d','_','a','t']
+
+theorem asInt_int (i : Int) : Go.asInt (Go.Any.int i) = (i, true) := rfl
+
+/-- `GetAuthenticated` after `SetAuthenticated(true)` at instant `t0` (the random session id being available): true exactly while no
+    more than 24 hours have passed since the whole second `t0` fell into -/
+theorem GetAuthenticated_after_set_true (sd : Go.SessData) (t0 t : Int) (hrand : (sd.generateSecureRandomString 32).2 = none) :
+    (Code.SessionData_SetAuthenticated t0 sd true).1 = none ∧
+    Code.SessionData_GetAuthenticated t (Code.SessionData_SetAuthenticated t0 sd true).2 =
+      decide (t - (t0 / 1000000000) * 1000000000 ≤ 24 * Go.Hour) := by
+  unfold Code.SessionData_SetAuthenticated
+  rcases hr : sd.generateSecureRandomString 32 with ⟨id, err⟩
+  rw [hr] at hrand
+  simp only at hrand
+  subst hrand
+  simp only [if_true, Option.isSome_none, Bool.false_eq_true, if_false, true_and]
+  unfold Code.SessionData_GetAuthenticated
+  have hm : ∀ (s : Go.SessData) p k v, (Go.sessSetVal s p k v).mainSession = s.mainSession := fun _ _ _ _ => rfl
+  have kne : kCreated ≠ kAuth := by decide
+  simp only [hm]
+  rw [sessVal_setVal_same, sessVal_setVal_key _ _ _ _ _ kne, sessVal_setVal_same]
+  simp only [asBool_bool, asInt_int, Bool.not_true, Bool.false_eq_true, if_false]
+  simp [Go.timeSub, Go.timeUnix, Go.timeToUnix, Code.absoluteSessionTimeout]
+
+/-- ... in particular: true up to 24 hours minus a second later, false from more than 24 hours later on -/
+theorem GetAuthenticated_window (sd : Go.SessData) (t0 t : Int) (h0 : 0 ≤ t0) (hrand : (sd.generateSecureRandomString 32).2 = none) :
+    (t0 ≤ t → t - t0 ≤ 24 * Go.Hour - Go.Second → Code.SessionData_GetAuthenticated t (Code.SessionData_SetAuthenticated t0 sd true).2 = true) ∧
+    (24 * Go.Hour + Go.Second ≤ t - t0 → Code.SessionData_GetAuthenticated t (Code.SessionData_SetAuthenticated t0 sd true).2 = false) := by
+  rw [(GetAuthenticated_after_set_true sd t0 t hrand).2]
+  have hfl : (t0 / 1000000000) * 1000000000 ≤ t0 ∧ t0 < (t0 / 1000000000) * 1000000000 + 1000000000 := by
+    constructor <;> omega
+  have hH : (24 : Int) * Go.Hour = 86400000000000 := by decide
+  have hS : Go.Second = (1000000000 : Int) := by decide
+  constructor
+  · intro h1 h2
+    rw [hH] at h2 ⊢; rw [hS] at h2
+    have h2' : t - t0 ≤ (86400000000000 : Int) - 1000000000 := h2
+    exact decide_eq_true (by omega)
+  · intro h1
+    rw [hH] at h1 ⊢; rw [hS] at h1
+    have h1' : (86400000000000 : Int) + 1000000000 ≤ t - t0 := h1
+    exact decide_eq_false (by omega)
+
+/-- after `SetAuthenticated(false)`, and for a session that carries no creation time, the answer is "not authenticated" at any time -/
+theorem GetAuthenticated_after_set_false (sd : Go.SessData) (t0 t : Int) :
+    (Code.SessionData_SetAuthenticated t0 sd false).1 = none ∧
+    Code.SessionData_GetAuthenticated t (Code.SessionData_SetAuthenticated t0 sd false).2 = false := by
+  unfold Code.SessionData_SetAuthenticated
+  simp only [Bool.false_eq_true, if_false, true_and]
+  unfold Code.SessionData_GetAuthenticated
+  have hm : ∀ (s : Go.SessData) p k v, (Go.sessSetVal s p k v).mainSession = s.mainSession := fun _ _ _ _ => rfl
+  simp only [hm]
+  rw [sessVal_setVal_same]
+  simp [asBool_bool]
+
+theorem GetAuthenticated_needs_created (sd : Go.SessData) (t : Int) (h : (Go.asInt (Go.sessVal sd sd.mainSession kCreated)).2 = false) :
+    Code.SessionData_GetAuthenticated t sd = false := by
+  unfold Code.SessionData_GetAuthenticated
+  rcases hb : Go.asBool (Go.sessVal sd sd.mainSession kAuth) with ⟨a, _⟩
+  rcases hi : Go.asInt (Go.sessVal sd sd.mainSession kCreated) with ⟨c, ok⟩
+  rw [hi] at h
+  simp only at h
+  subst h
+  cases a <;> simp
+
 end Oidc.CodeRefine
